@@ -1,9 +1,9 @@
-\* spec mutation: unhealthy nodes that are already terminating are not counted by the 20 % breaker -> Inv_C16_Repair
+\* spec mutation: an already annotated NodeClaim (failed Delete of an earlier pass, or annotated by someone else) is deleted without consulting the 20 % breaker -> Inv_C16_Repair
 CONSTANTS Claims = {"c1", "c2", "c3"}  MaxNow = 1000  MaxFaults = 1  MaxEnv = 2  MaxLen = 30  NoopEvery = 1  OffBefore = {1, 500}  OffAfter = {0, 1}
           EA = 600  LT = 300  RT = 900  TolReady = 120  TolUnk = 90  TolDisk = 60  UnknownFirst = TRUE
           PoolBg = {4}  OtherBg = {5}  MaxBad = 1  MaxDel = 1  ReadyVals = {"True", "False"}
           RoundedClock = {}  ExpireSlack = 0  ExpireNever = "check"  GcOnProvListError = "abort"  GcOnLookupError = "skip"  GcReady = "check"  NotFoundAsEmpty = {}  GcReadOrder = "claimsFirst"  LiveGate = "registered"
-          LiveSlack = 0  RepairSlack = 0  RepairTolBy = "policy"  RepairAnnotated = "check"  RepairExtra = 0  RepairScope = "pool"  RepairOnListError = "abort"  RepairTerminating = "skip"
+          LiveSlack = 0  RepairSlack = 0  RepairTolBy = "policy"  RepairAnnotated = "shortcut"  RepairExtra = 0  RepairScope = "pool"  RepairOnListError = "abort"  RepairTerminating = "count"
 SPECIFICATION Spec
 VIEW view
 INVARIANTS Inv_C16_Expiration Inv_C16_GarbageCollection Inv_C16_Liveness Inv_C16_Repair
